@@ -116,6 +116,12 @@ def run(chk):
     filesets.append({"files": [["deep", deep * 50]]})
     # many identifiers in one scope (names beyond one letter, incl. the ids that spell reserved words)
     filesets.append({"files": [["wide", "".join('<v a="{{x%d}}"><v/></v>' % i for i in range(3000))]]})
+    # every allocation path (hoisted branch variable of a wx:if group, hoisted key of <template is>, hoisted children functions, the generated parameters of
+    # a wx:for item function) at every counter value around the ids whose names spell reserved words (`if` 2218, `in` 2634, `do` 2681): five phase shifts of
+    # a 5-identifier cycle behind ~2190 one-identifier fillers (round 11, C02-11: one path bypassed the reserved-word filter)
+    for off in range(5):
+        cyc = '<v wx:if="{{a}}"/><template is="t"/><v wx:for="{{l}}"/>'
+        filesets.append({"files": [["phase%d" % off, '<template name="t">x</template>' + "<v/>" * (2185 + off) + cyc * 110]]})
     from . import jswriter
     jswriter.run(chk, filesets, cap=150 if quick else 1500)
     answers = core.run_harness([core.req("group", json.dumps(fs)) for fs in filesets], timeout=3600)
